@@ -372,12 +372,14 @@ def post(ctx, args, kind, value):
         works.append(call["work"])
         fname = paths[d].rsplit("/", 1)[-1]
         fdir = paths[d].rsplit("/", 1)[0]
-        for env in call["envs"]:
+        titles = (ctx.notes.get("executed_titles") or [[]] * (d + 1))[d] if d < len(ctx.notes.get("executed_titles") or []) else []
+        for ei, env in enumerate(call["envs"]):
+            own = not titles or ei >= len(titles) or titles[ei][:1] not in "pPqQ"     # (test cases of prepend / append documents bring no FOO)
             if any(k not in env for k in DOCUMENTED_ENV):
                 return False
             if env["TMPDIR"] != call["tmp"] or env["TESTFILE"] != fname or env["TESTDIR"] != fdir or env["TESTSHELL"] != "/bin/bash":
                 return False
-            if env.get("FOO") != "bar":
+            if own and env.get("FOO") != "bar":
                 return False          # the test case's own (undocumented) variable is lost
             if ctx.notes.get("cram"):
                 # Cram compatibility: CRAMTMP is the (given or created) base work directory, TMP and TEMP are the temporary directory
